@@ -92,11 +92,11 @@ def jobs(prop, tier):
         M = ['string', 'libc', 'sstream', 'posix']
         for l in ((2, 3, 4, 5, 6) if T else (2, 3, 4)):
             J.append(Job('C18', 'split%d' % l, 'C18_request.cpp', defs={'H_SPLIT': None, 'L': l}, unwind=l + 3, shape='K', models=M,
-                         solver='cadical', timeout=1500 if T else 250,
+                         solver=PORTFOLIO, timeout=1500 if T else 250,
                          bounds='all command lines of exactly %d characters over {a,b,blank,\",\'}' % l))
         for l in ((3, 4, 5, 6) if T else (3, 4)):
             J.append(Job('C18', 'http%d' % l, 'C18_request.cpp', defs={'H_HTTP': None, 'L': l}, unwind=l + 18, shape='K', models=M,
-                         solver='cadical', timeout=1500 if T else 250,
+                         solver=PORTFOLIO, timeout=1500 if T else 250,
                          bounds='all URIs of exactly %d characters over {%%,2,5,4,1,e,/,.,a} with well-formed escapes' % l))
     if prop in ('C05', 'C06', 'C10'):
         names = None
@@ -114,6 +114,13 @@ def jobs(prop, tier):
         for l in ((2, 3) if T else (2,)):
             J.append(Job('C14', 'chunk%d' % l, 'C14_enhanced.cpp', defs={'H_CHUNK': None, 'L': l}, unwind=l + 2, unwindset={'cstrlen': 34, 'put_field': 34, 'vs_copy': 34, 'basic_ostringstreamIcSt11char_traitsIcESaIcEE3strEv': 34}, shape='R', timeout=3000 if T else 280,
                          bounds='every stream of %d arbitrary bytes, every split position, every initial arbitration state' % l, **DEV))
+    if prop == 'C16':
+        pairs = [(1, 1), (1, 3), (2, 2), (2, 3), (2, 5), (1, 4), (3, 3)] if not T else [(a, b) for a in (1, 2, 3) for b in range(1, 8) if b >= a]
+        for (la, lb) in pairs:
+            J.append(Job('C16', 'level_%d_%d' % (la, lb), 'C16_level.cpp', defs={'LA': la, 'LB': lb}, unwind=lb + 3, shape='K',
+                         link=['lib/ebus/message.cpp'], models=['string', 'libc', 'sstream', 'posix', 'containers', 'libm'],
+                         skip_ctors=['message', 'datatype'], solver=PORTFOLIO, timeout=900 if T else 250,
+                         bounds='all level names of length %d over {a,b} x all level lists of length %d over {a,b,;,*}' % (la, lb)))
     if prop == 'C07':
         J += numtype_jobs('C07', 'C07_parse.cpp', T, {}, 'parse_', solver='cadical', timeout=900 if T else 250)
     if prop == 'C12':
@@ -126,6 +133,12 @@ BUS_NOTE = ('Trusted: clang-14 lowering, ll2c, models (string, sstream, posix, c
             '(every read result = timeout | error | chunk of 1..2 arbitrary bytes), clock = arbitrary non-decreasing instants, logging off. '
             'DirectProtocolHandler::run() itself (thread start, 5 s reopen wait) is not encoded; its loop body is re-stated in env_bus.h Stepper.')
 META = {
+ 'C16': dict(
+   level_text='Bounded model checking of the real Message::checkLevel (the predicate behind hasLevel on every read/write/poll/data-sink path): for every level name and every granted level list within the length bounds over an alphabet with separators and the wildcard, access is granted iff the list is "*" or contains the name as an exact token -- prefix, suffix and infix names never match.',
+   level_note='Only the matching predicate is decided. Outside: the wiring of hasLevel into MainLoop::executeRead/Write/Find, MQTT/KNX handlers, user authentication (UserList), which are string/option-heavy functions beyond the reach of this encoding. Trusted: models/string.c (find/compare/operator[]).',
+   outside_claim='call sites of hasLevel in mainloop.cpp / mqtthandler.cpp / knxhandler.cpp, ACL file parsing and authentication, names longer than the bound',
+   assumptions=COMMON_ASSUME,
+ ),
  'C14': dict(
    level_text='Bounded model checking of the real EnhancedDevice (send/startArbitration/requestEnhancedInfo/recv/handleEnhancedBufferedData): exact two-byte encoding for all symbols; every well-formed unit decodes to the symbol and won/lost result the enhanced protocol assigns from every arbitration state; every stream of L arbitrary bytes decodes to the same symbols, results and diagnostics for every split into two chunks.',
    level_note='Trusted: clang-14 lowering, ll2c, models (string, sstream for diagnostic texts), CBMC. Environment: in-memory transport handing out what is buffered; time() constant per execution. Outside: plain-device FileTransport buffering (::read/ppoll), splits into more than two chunks, streams longer than L, info response texts.',
